@@ -183,6 +183,7 @@ def step (d : DState) (args : List String) : DState × String :=
   | "expect" :: _ => (d, "ok")
   | "sleep" :: _ => (d, "ok")
   | "mr" :: _ => (d, "ok")
+  | "mr2" :: _ => (d, "ok")
   | "cfg" :: me :: st :: ot :: mc :: once :: chk :: _ =>
     match nat? me, bool? st, bool? ot, nat? mc, bool? once, bool? chk with
     | some me, some st, some ot, some mc, some once, some chk =>
